@@ -14,8 +14,8 @@ for d in "$@"; do
   props="$prop"; [ -n "${EXTRA_PROPS:-}" ] && props="$props $EXTRA_PROPS"
   : > $out
   for p in $props; do
-    (cd /verif && timeout 3000 ./check $p --tier quick 2>&1 | grep -E "VIOLATION|failed obligation|UNDECIDED|KNOWN-FINDING|proved=" | cut -c1-260) >> $out
-    echo "rc[$p]=${PIPESTATUS[0]}" >> $out
+    (cd /verif && timeout 3000 ./check $p --tier quick > $OUT/last.log 2>&1; echo "rc[$p]=$?" >> $out)
+    grep -E "VIOLATION|failed obligation|UNDECIDED|KNOWN-FINDING|proved=" $OUT/last.log | cut -c1-260 >> $out
   done
   cd $W && git reset -q --hard HEAD
 done
